@@ -18,7 +18,14 @@ RULE = ('case = (context table, ordered list of extents of concepts mined by clo
         'concept not in the list and remove_concept of every listed concept whose removal keeps a greatest and a least one, '
         'each with inplace=True (the passed list / dictionaries must hold the result afterwards) and with inplace=False as a '
         'history of three calls with different candidates on the SAME base objects (each result judged against the covers '
-        'of the base, and the base list / relation deep-compared with a snapshot after every call) '
+        'of the base, and the base list / relation deep-compared with a snapshot after every call); the relation is handed over '
+        'as plain {i: set} dictionaries and, rotating, as set- / frozenset-valued dictionaries with keys inserted in ascending, '
+        'descending, shuffled and mixed order, and as produced by the library (pipeline routine -> helper): complete_comparison, '
+        'construct_lattice_by_spanning_tree, order_extents_comparison, _transpose_hierarchy of either direction, and '
+        'ConceptLattice(...).children_dict / parents_dict of a lattice built from a children dict, a parents dict or lazily; '
+        'further variants of the construction routines: the list handed over as a tuple, concepts taken from '
+        'close_by_one_objectwise / lindig_algorithm, single-concept lists, tables with 13-14 objects (two-digit indexes); '
+        'every routine must leave the list it was given untouched '
         '(also lists whose greatest/least is not the lattice top/bottom, so that the new-top / new-bottom branches run); '
         'is_concepts_sorted=True only on linear extensions of the order; then seeded random pruned lists up to 30 concepts '
         'from 6x6 tables (14x8 in the thorough tier). non-trivial = at least one concept strictly between top and bottom; '
@@ -55,22 +62,40 @@ REQUESTS_NEED_IMPL = True
 # implementation side
 # ---------------------------------------------------------------------------------------------------
 
+MINERS = ('cbo', 'objectwise', 'lindig')
+
+
 @functools.lru_cache(maxsize=512)
-def _mined(rows_key):
-    """{sorted extent tuple: FormalConcept} of the concepts close_by_one mines from the table."""
+def _mined(rows_key, miner='cbo'):
+    """{sorted extent tuple: FormalConcept} of the concepts mined from the table (close_by_one by default; the other
+    miners — whose concepts may list their extent in another order — only when they find the same extents: whether they
+    do is the business of C02, not of this check)."""
     from fcapy.context import FormalContext
     from fcapy.algorithms import concept_construction as cca
     K = FormalContext(data=[[bool(v) for v in r] for r in rows_key])
-    return {tuple(sorted(int(g) for g in c.extent_i)): c for c in cca.close_by_one(K)}
+    base = {tuple(sorted(int(g) for g in c.extent_i)): c for c in cca.close_by_one(K)}
+    if miner == 'cbo':
+        return base
+    try:
+        f = {'objectwise': cca.close_by_one_objectwise, 'lindig': cca.lindig_algorithm}[miner]
+        alt = {tuple(sorted(int(g) for g in c.extent_i)): c for c in f(K)}
+    except Exception:
+        return base
+    return alt if set(alt) == set(base) else base
 
 
-def mined(rows):
-    return _mined(tuple(tuple(r) for r in rows))
+def mined(rows, miner='cbo'):
+    return _mined(tuple(tuple(r) for r in rows), miner)
 
 
 def concept_list(c):
-    m = mined(c['rows'])
+    m = mined(c['rows'], c.get('miner', 'cbo'))
     return [m[tuple(e)] for e in c['exts']]
+
+
+def real_exts(c):
+    """the extents in the order in which the concepts themselves list them (`extent_i`; the sort key reads that)"""
+    return [[int(g) for g in x.extent_i] for x in concept_list(c)]
 
 
 def canon_dict(d, n):
@@ -94,6 +119,71 @@ def top_bottom(exts):
     t = [i for i in range(len(S)) if all(S[j] < S[i] for j in range(len(S)) if j != i)]
     b = [i for i in range(len(S)) if all(S[i] < S[j] for j in range(len(S)) if j != i)]
     return (t[0] if t else None), (b[0] if b else None)
+
+
+# How the relation handed to add_concept / remove_concept is represented and where it comes from.  The helpers accept
+# any {index: collection} dictionaries; the library itself hands around set- and frozenset-valued ones, filled in
+# ascending (complete_comparison, children_dict), descending / arbitrary (order_extents_comparison,
+# _transpose_hierarchy) key order.
+ORACLE_RELS = [dict(src='oracle', val=v, keys=k) for v in ('set', 'frozenset') for k in ('asc', 'desc', 'shuf')] + \
+              [dict(src='oracle', val='set', keys='asc-desc'), dict(src='oracle', val='frozenset', keys='desc-asc')]
+PIPE_RELS = [dict(src=x) for x in ('cc', 'st', 'transpose', 'transpose-sub', 'lattice', 'lattice-parents',
+                                   'lattice-lazy', 'oe')]
+ALL_RELS = ORACLE_RELS + PIPE_RELS
+
+
+class PipelineError(Exception):
+    pass
+
+
+def _ordered(d, how, kseed, second=False):
+    keys = sorted(d)
+    if how in ('asc-desc', 'desc-asc'):
+        how = how.split('-')[1 if second else 0]
+    if how == 'desc':
+        keys = keys[::-1]
+    elif how == 'shuf':
+        random.Random(kseed * 2 + int(second)).shuffle(keys)
+    return {k: d[k] for k in keys}
+
+
+def build_relation(c, cs):
+    """(subconcepts_dict, superconcepts_dict) for the list `cs` in the representation asked for by c['rel']"""
+    import fcapy.algorithms.lattice_construction as lca
+    from fcapy.lattice import ConceptLattice
+    rel = c.get('rel') or dict(src='oracle', val='set', keys='asc')
+    sub, sup = py_covers(c['exts'])
+    osub = {i: set(x) for i, x in enumerate(sub)}
+    osup = {i: set(x) for i, x in enumerate(sup)}
+    src = rel['src']
+    if src == 'oracle':
+        conv = frozenset if rel['val'] == 'frozenset' else set
+        subd = _ordered({i: conv(x) for i, x in osub.items()}, rel['keys'], rel.get('kseed', 0))
+        supd = _ordered({i: conv(x) for i, x in osup.items()}, rel['keys'], rel.get('kseed', 0), second=True)
+    elif src in ('cc', 'st', 'oe'):
+        f = {'cc': lca.complete_comparison, 'st': lca.construct_lattice_by_spanning_tree,
+             'oe': lca.order_extents_comparison}[src]
+        subd = f(list(cs))
+        supd = {i: set() for i in subd}          # transposed in the key order of the routine's own output
+        for i, xs in subd.items():
+            for x in xs:
+                supd[x].add(i)
+    elif src == 'transpose':
+        subd = osub
+        supd = ConceptLattice._transpose_hierarchy(osub)
+    elif src == 'transpose-sub':
+        supd = osup
+        subd = ConceptLattice._transpose_hierarchy(osup)
+    elif src in ('lattice', 'lattice-parents', 'lattice-lazy'):
+        kw = {'lattice': dict(children_dict=osub), 'lattice-parents': dict(parents_dict=osup), 'lattice-lazy': {}}[src]
+        L = ConceptLattice(list(cs), **kw)
+        subd, supd = L.children_dict, L.parents_dict
+    else:
+        raise ValueError(src)
+    n = len(cs)
+    if canon_dict(subd, n) != [sorted(x) for x in sub] or canon_dict(supd, n) != [sorted(x) for x in sup]:
+        raise PipelineError(f'{src}: children {canon_dict(subd, n)} parents {canon_dict(supd, n)}')
+    return subd, supd
 
 
 # A routine that loops for ever (e.g. a cyclic parent relation walked by `_get_chains` in a mutated tree) is cut off:
@@ -125,23 +215,29 @@ def impl(c):
     try:
         if c.get('swi'):
             sys.setswitchinterval(c['swi'])
-        if r == 'cc':
-            return {'ok': canon_dict(lca.complete_comparison(cs, is_concepts_sorted=c['sorted'], n_jobs=c['njobs']), n)}
-        if r == 'st':
-            return {'ok': canon_dict(lca.construct_lattice_by_spanning_tree(cs, is_concepts_sorted=c['sorted'],
-                                                                            n_jobs=c['njobs']), n)}
-        if r == 'tree':
-            sub, sup = lca.construct_spanning_tree(cs, is_concepts_sorted=c['sorted'])
-            chains = ConceptLattice._get_chains(cs, sup, is_concepts_sorted=c['sorted'])
-            return {'ok': {'sub': canon_dict(sub, n), 'sup': canon_dict(sup, n),
-                           'chains': [[int(x) for x in ch] for ch in chains]}}
-        if r == 'oe':
-            return {'ok': canon_dict(lca.order_extents_comparison(cs), n)}
+        if r in ('cc', 'st', 'tree', 'oe'):
+            arg = tuple(cs) if c.get('ctype') == 'tuple' else cs
+            if r == 'cc':
+                res = canon_dict(lca.complete_comparison(arg, is_concepts_sorted=c['sorted'], n_jobs=c['njobs']), n)
+            elif r == 'st':
+                res = canon_dict(lca.construct_lattice_by_spanning_tree(arg, is_concepts_sorted=c['sorted'],
+                                                                        n_jobs=c['njobs']), n)
+            elif r == 'tree':
+                sub, sup = lca.construct_spanning_tree(arg, is_concepts_sorted=c['sorted'])
+                chains = ConceptLattice._get_chains(arg, sup, is_concepts_sorted=c['sorted'])
+                res = {'sub': canon_dict(sub, n), 'sup': canon_dict(sup, n),
+                       'chains': [[int(x) for x in ch] for ch in chains]}
+            else:
+                res = canon_dict(lca.order_extents_comparison(arg), n)
+            # the routines only read the list they are given
+            intact = len(arg) == n and all(a is b for a, b in zip(arg, concept_list(c)))
+            return {'ok': res, 'input_intact': intact}
         # add / remove: a history on ONE base (list + relation): the first candidate, and with inplace=False the
         # further candidates `more` are tried against the very same objects, which must stay intact.
-        sub, sup = py_covers(c['exts'])
-        subd = {i: set(s) for i, s in enumerate(sub)}
-        supd = {i: set(s) for i, s in enumerate(sup)}
+        try:
+            subd, supd = build_relation(c, cs)
+        except PipelineError as e:
+            return {'pipeline': str(e)[:400]}
         t, b = top_bottom(c['exts']) if c['passtb'] else (None, None)
         snap = ([sorted(int(g) for g in x.extent_i) for x in cs], canon_dict(subd, n), canon_dict(supd, n))
         cands = [c['new'] if r == 'add' else c['ci']] + (list(c.get('more', [])) if not c['inplace'] else [])
@@ -149,7 +245,8 @@ def impl(c):
         for cand in cands:
             try:
                 if r == 'add':
-                    out = lca.add_concept(mined(c['rows'])[tuple(cand)], cs, subd, supd, t, b, inplace=c['inplace'])
+                    out = lca.add_concept(mined(c['rows'], c.get('miner', 'cbo'))[tuple(cand)], cs, subd, supd, t, b,
+                                          inplace=c['inplace'])
                     m = n + 1
                 else:
                     out = lca.remove_concept(cand, cs, subd, supd, t, b, inplace=c['inplace'])
@@ -194,11 +291,11 @@ def id_to_topo(exts):
 def requests(c, io):
     r = c['routine']
     if r in ('cc', 'st'):
-        return [dict(op='C12.' + r, cs=c['exts'], sorted=c['sorted'], njobs=c['njobs'], ord='asc')]
+        return [dict(op='C12.' + r, cs=real_exts(c), sorted=c['sorted'], njobs=c['njobs'], ord='asc')]
     if r == 'tree':
         ok = io.get('ok') if isinstance(io, dict) else None
         good = isinstance(ok, dict) and isinstance(ok.get('sup'), list) and isinstance(ok.get('sub'), list)
-        return [dict(op='C12.tree', cs=c['exts'], sorted=c['sorted'], ord='asc',
+        return [dict(op='C12.tree', cs=real_exts(c), sorted=c['sorted'], ord='asc',
                      implSup=ok['sup'] if good else [], implChains=ok['chains'] if good else [])]
     if r == 'oe':
         return [dict(op='C12.oe', cs=c['exts'], idToTopo=id_to_topo(c['exts']))]
@@ -222,6 +319,11 @@ def judge(c, io, rep):
 
 
 def _judge(c, io, rep):
+    if isinstance(io, dict) and 'input_intact' in io:
+        if not io['input_intact']:
+            return dict(ok=False, kind='property',
+                        detail=f'{c["routine"]} modified the concept list it was given (input is only to be read)')
+        io = {k: v for k, v in io.items() if k != 'input_intact'}
     r = c['routine']
     q = rep[0]
     mal = c['stream'] == 'malformed'
@@ -265,6 +367,10 @@ def _judge(c, io, rep):
             return dict(ok=False, kind='harness', detail=f'model {q["model"]} keys {q["keys"]} != spec {q["spec"]}')
         return dict(ok=True)
     # add / rem: every call of the history is judged against the spec of the SAME base
+    if 'pipeline' in io:
+        return dict(ok=False, kind='property',
+                    detail=f'the relation produced for the helper by {c.get("rel")} is not the cover relation of the list: '
+                           f'{io["pipeline"]}')
     if 'calls' not in io:
         return dict(ok=False, kind='property', detail=f'{r} raised {io}')
     cands = [c['new'] if r == 'add' else c['ci']] + (list(c.get('more', [])) if not c['inplace'] else [])
@@ -277,7 +383,7 @@ def _judge(c, io, rep):
         else:
             want_exts = [sorted(e) for i, e in enumerate(c['exts']) if i != cand]
         want = dict(exts=want_exts, sub=spec['sub'], sup=spec['sup'], top=spec['top'], bot=spec['bot'])
-        where = f'{r}({cand}, inplace={c["inplace"]}), call {k + 1} on the same base'
+        where = f'{r}({cand}, inplace={c["inplace"]}, relation={c.get("rel", "oracle sets")}), call {k + 1} on the same base'
         if res.get('ok') != want:
             shown = {kk: vv for kk, vv in res.items() if kk in ('ok', 'err')}
             return dict(ok=False, kind='property', detail=f'{where} returned {shown}, expected {want}')
@@ -360,35 +466,75 @@ def routine_cases(rows, order, stream, par_jobs=(), swis=(None,), tree=True):
             yield dict(stream=stream, rows=rows, exts=order, routine='tree', sorted=srt)
 
 
+def variant_cases(rows, order, stream, k):
+    """the same list handed over as a tuple, and built from the concepts of another miner (extent tuples possibly in
+    another order: the sort key of sort_concepts reads them)"""
+    srt_ok = is_linear_extension(order)
+    for r in ('cc', 'st', 'tree'):
+        for srt in ((False, True) if srt_ok else (False,)):
+            base = dict(stream=stream, rows=rows, exts=order, routine=r, sorted=srt)
+            if r != 'tree':
+                base['njobs'] = 1
+            yield dict(base, ctype='tuple')
+            yield dict(base, miner=MINERS[1 + k % 2])
+    if len(order) > 2:
+        yield dict(stream=stream, rows=rows, exts=order, routine='st', sorted=False, njobs=2 + k % 2, ctype='tuple',
+                   miner=MINERS[1 + (k + 1) % 2])
+
+
 def addrem_cases(rows, all_exts, order, stream, rng):
     """every admissible add and remove on the list `order` (the list itself has a greatest and a least concept), each in
     both `inplace` modes; the inplace=False case continues with up to two further candidates on the SAME base objects"""
     inlist = {tuple(e) for e in order}
     adds = [new for new in all_exts if tuple(new) not in inlist and has_top_bottom(order + [new])]
     rems = [ci for ci in range(len(order)) if has_top_bottom(order[:ci] + order[ci + 1:])] if len(order) >= 3 else []
+    complete = len(inlist) == len(all_exts)
     k = 0
+    ri = rng.randrange(len(ALL_RELS))
+
+    def next_rel():
+        nonlocal ri
+        while True:
+            ri += 1
+            rel = dict(ALL_RELS[ri % len(ALL_RELS)])
+            if rel['src'] == 'oe' and not complete:
+                continue
+            if rel.get('keys') == 'shuf':
+                rel['kseed'] = rng.randrange(1000)
+            return rel
+
     for routine, key, cands in (('add', 'new', adds), ('rem', 'ci', rems)):
         for i, cand in enumerate(cands):
             k += 1
             base = dict(stream=stream, rows=rows, exts=order, routine=routine, passtb=bool(k % 2))
             base[key] = cand
-            yield dict(base, inplace=True)
             more = [cands[(i + j) % len(cands)] for j in (1, 2)]
+            yield dict(base, inplace=True)                  # plain {i: set} dictionaries in ascending key order
             yield dict(base, inplace=False, more=more)      # the same candidate again is a legitimate second call
+            # the same with the relation in the representations the library itself hands around / a caller may build
+            yield dict(base, inplace=True, rel=next_rel())
+            yield dict(base, inplace=False, more=more[:1], rel=next_rel())
             if len(order) <= 4:
-                yield dict(base, inplace=bool(k % 3), passtb=not (k % 2), more=more[:1])
+                yield dict(base, inplace=bool(k % 3), passtb=not (k % 2), more=more[:1], rel=next_rel())
 
 
 def exhaustive(tables, rng, stream, par_all, swis, inner_cap, sample=None):
+    nv = 0
     for rows, exts in families(tables):
-        if len(exts) < 2:
-            continue
         if sample is not None and rng.random() >= sample:
+            continue
+        # a single concept is its own greatest and least element
+        for x in exts:
+            yield from routine_cases(rows, [x], stream + '-single', (), (None,))
+        if len(exts) < 2:
+            yield dict(stream=stream + '-single', rows=rows, exts=exts, routine='oe')
             continue
         top, bot, inner = exts[0], exts[-1], exts[1:-1]
         # order_extents_comparison: complete concept sets only
-        for order in orders_of(exts, rng, 6):
+        for oi, order in enumerate(orders_of(exts, rng, 6)):
             yield dict(stream=stream, rows=rows, exts=order, routine='oe')
+            if oi % 7 == 0:
+                yield dict(stream=stream, rows=rows, exts=order, routine='oe', ctype='tuple', miner=MINERS[1 + oi % 2])
         for k in range(min(len(inner), inner_cap) + 1):
             for sub in itertools.combinations(inner, k):
                 lst = [top] + list(sub) + [bot]
@@ -398,6 +544,9 @@ def exhaustive(tables, rng, stream, par_all, swis, inner_cap, sample=None):
                     if order == lst or (oi == (len(ords) * 2) // 3 and len(lst) > 2):
                         par = (2, 3, 5) if (par_all or order == lst) else (2 + (len(lst) + k) % 2,)
                     yield from routine_cases(rows, order, stream, par, swis)
+                nv += 1
+                yield from variant_cases(rows, lst, stream, nv)
+                yield from variant_cases(rows, ords[(len(ords) * 2) // 3], stream, nv + 1)
                 # add / remove on the size-sorted listing and on one other order
                 for order in (lst, ords[len(ords) // 2]):
                     yield from addrem_cases(rows, exts, order, stream, rng)
@@ -413,9 +562,9 @@ def exhaustive(tables, rng, stream, par_all, swis, inner_cap, sample=None):
                 yield from routine_cases(rows, lst[::-1], stream + '-ends', (), (None,), tree=True)
 
 
-def random_cases(rng, count, nmax, mmax, cap, par_p, swis):
+def random_cases(rng, count, nmax, mmax, cap, par_p, swis, nmin=2, mmin=2):
     for _ in range(count):
-        rows = G.random_table(rng, nmax, mmax, nmin=2, mmin=2)
+        rows = G.random_table(rng, nmax, mmax, nmin=nmin, mmin=mmin)
         exts = sorted(mined(rows).keys(), key=lambda e: (-len(e), e))
         exts = [list(e) for e in exts]
         if len(exts) < 3:
@@ -432,6 +581,7 @@ def random_cases(rng, count, nmax, mmax, cap, par_p, swis):
             if rng.random() < par_p:
                 par = (rng.choice((2, 3, 5)),)
             yield from routine_cases(rows, order, 'random', par, swis if par else (None,))
+        yield from variant_cases(rows, lst, 'random', rng.randrange(2))
         yield from itertools.islice(addrem_cases(rows, exts, rng.sample(lst, len(lst)), 'random', rng), 12)
         if len(exts) <= 40:
             yield dict(stream='random', rows=rows, exts=rng.sample(exts, len(exts)), routine='oe')
@@ -483,6 +633,8 @@ def gen(tier, seed, boost=False):
         yield from exhaustive(big, rng, 'exhaustive-large', par_all=False, swis=(None,), inner_cap=6, sample=0.05)
     if tier == 'quick':
         yield from random_cases(rng, 60 * (3 if boost else 1), 6, 6, 30, 0.25, (None,))
+        # two-digit object indexes (the sort key joins them as text; bit-sets of >= 13 objects)
+        yield from random_cases(rng, 12, 14, 4, 30, 0.25, (None,), nmin=13, mmin=3)
     else:
         yield from random_cases(rng, 500, 6, 6, 30, 0.3, (None, 1e-6))
         yield from random_cases(rng, 150, 14, 8, 30, 0.15, (None,))
@@ -497,7 +649,7 @@ def nontrivial(c):
 
 def key(c):
     return [c['exts'], c['routine'], c.get('sorted'), c.get('njobs'), c.get('swi'), c.get('new'), c.get('ci'),
-            c.get('passtb'), c.get('inplace'), c.get('more')]
+            c.get('passtb'), c.get('inplace'), c.get('more'), c.get('rel'), c.get('ctype'), c.get('miner')]
 
 
 def branch(c, io, rep):
@@ -506,6 +658,10 @@ def branch(c, io, rep):
            'size:%d' % min(len(c['exts']), 10)]
     if c.get('njobs', 1) > 1:
         out.append(f'{r}:n_jobs={c["njobs"]}' + (':swi' if c.get('swi') else ''))
+    if c.get('ctype'):
+        out.append(f'{r}:tuple')
+    if c.get('miner'):
+        out.append(f'{r}:miner={c["miner"]}')
     if r == 'tree' and 'ok' in io and isinstance(io['ok'].get('chains'), list):
         out.append('chains:%d' % min(len(io['ok']['chains']), 6))
     if r in ('add', 'rem') and io.get('calls') and 'ok' in io['calls'][0]:
@@ -518,6 +674,8 @@ def branch(c, io, rep):
             out.append('rem:top' if c['ci'] == t else 'rem:bottom' if c['ci'] == b else 'rem:inner')
         out.append(f'{r}:' + ('tb-given' if c['passtb'] else 'tb-None'))
         out.append(f'{r}:inplace' if c['inplace'] else f'{r}:copy:calls={len(io["calls"])}')
+        rel = c.get('rel') or dict(src='oracle', val='set', keys='asc')
+        out.append(f'{r}:rel={rel["src"]}' + (f':{rel["val"]}:{rel["keys"]}' if rel['src'] == 'oracle' else ''))
     return out
 
 
@@ -539,7 +697,21 @@ def shrink(c):
     r = c['routine']
     if r == 'oe':
         return
+    for fld in ('ctype', 'miner'):
+        if c.get(fld):
+            d = dict(c)
+            d.pop(fld)
+            yield d
+    if c.get('rel'):
+        d = dict(c)
+        d.pop('rel')
+        yield d
+        if c['rel'].get('src') != 'oracle':
+            for rel in ORACLE_RELS:
+                yield dict(c, rel=dict(rel, kseed=1))
     for i in range(len(exts)):
+        if c.get('rel', {}).get('src') == 'oe':
+            break                       # order_extents_comparison needs the complete concept set
         if r == 'rem' and i == c['ci']:
             continue
         rest = exts[:i] + exts[i + 1:]
